@@ -72,19 +72,19 @@ NET_NOTE = ("Trusted: tokio's paused clock advances only when no task is runnabl
 CHECKS.update({
  "C09": dict(engine="net+decoder", cat="model_checking", ref="§4 C09, §2.4, §2.5",
    technique="exhaustive enumeration of every 1-cut, 2-cut and byte-at-a-time segmentation of every corpus stream, at the real decoder and over real loopback TCP on a paused single-thread runtime",
-   text="Corpus: one frame per opcode 0x00-0x24 plus 20 anomalous-but-accepted frames (unexpected extras/value, wrong extras length, oversized), each followed by noop/set/get (thorough: all ordered pairs). Oracles: every frame is taken from exactly 24+body bytes by a fresh decoder; decoder outcome and socket responses/final store identical for every segmentation; the unsegmented socket result equals the frame-wise expectation or the connection is closed.",
+   text="Corpus: one frame per opcode 0x00-0x24 plus 20 anomalous-but-accepted frames (unexpected extras/value, wrong extras length, oversized), each followed by noop/set/get (thorough: all ordered pairs). Oracles: every frame is taken from exactly 24+body bytes by a fresh decoder; decoder outcome and socket responses/final store identical for every segmentation; the unsegmented socket result equals the frame-wise expectation or the connection is closed; answered requests in front of every rejected frame reach the client wherever the stream is cut; a fresh connection opened after every stream gets exactly one noop answered (nothing of a stream reaches another connection).",
    note=NET_NOTE),
  "C12": dict(engine="net", cat="model_checking", ref="§4 C12, §2.5",
    technique="exhaustive enumeration of pipelined request streams over all opcodes (depth 2, thorough 3, quit/quitq at every position) on real loopback TCP, validated by the sequential specification",
-   text="Every stream of 1-2 (thorough 3) requests over a 48-element alphabet (incl. oversized set/setq, also delivered in three pieces cut inside the body) (every opcode 0x00-0x24 with hit/miss and success/error operands, loud/quiet, unimplemented, undefined) plus every stream with quit/quitq in the middle, sent in one segment and byte-at-a-time; responses are matched by opaque in order: exactly one per loud known opcode, quiet only on error/hit, quit answered then EOF, quitq EOF without answer, nothing after either executed (final store compared).",
+   text="Every stream of 1-2 (thorough 3) requests over a 48-element alphabet (incl. oversized set/setq, also delivered in three pieces cut inside the body) (every opcode 0x00-0x24 with hit/miss and success/error operands, loud/quiet, unimplemented, undefined) plus every stream with quit/quitq in the middle, sent in one segment and byte-at-a-time; responses are matched by opaque in order: exactly one per loud known opcode, quiet only on error/hit, quit answered then EOF, quitq EOF without answer, nothing after either executed (final store compared), not even on the next connection (a fresh connection after every stream: one noop, exactly one answer).",
    note=NET_NOTE),
  "C13": dict(engine="net", cat="model_checking", ref="§4 C13, §2.5",
    technique="exhaustive grid limit x body length x opcode x pipeline position x bytes-already-buffered x buffer-pregrown on real loopback TCP against an in-process reference",
-   text="Full grid (limits 1 KiB..4 MiB, L in {limit-1,limit,limit+1,2*limit,limit+200000}, every opcode, first/middle/last, B in {0,1,L/2-1,L/2,L/2+1,L-1,L,all+next}, receive buffer pre-grown or not): the oversized request is answered 0x03 with opcode/opaque echoed, the store equals a run without it, every other request is answered as in that run, L <= limit is never refused for size.",
+   text="Full grid (limits 1 KiB..4 MiB, L in {limit-1,limit,limit+1,2*limit,limit+200000}, every opcode, first/middle/last, B in {0,1,L/2-1,L/2,L/2+1,L-1,L,all+next}, receive buffer pre-grown or not): the oversized request is answered 0x03 with opcode/opaque echoed, the store equals a run without it, every other request is answered as in that run, L <= limit is never refused for size (stores at limit-1/limit; every opcode 0..0x24 with a small body delivered whole, header first, or last byte late); header shapes of the oversized request: 3-byte, 251-byte, 65535-byte key, 21 extras bytes.",
    note=NET_NOTE),
  "C17": dict(engine="net", cat="fault_enumeration", ref="§4 C17, §2.5",
-   technique="exhaustive enumeration of connection-lifecycle sequences (8 ending kinds, limits 1..4, length <= limit+2, two ending orders) against the real accept loop/semaphore on loopback TCP with virtual time",
-   text="10 ending kinds (client close, quit, quitq, close mid-request, bad magic, oversized item then close, idle timeout, abortive reset, stall inside a request until the timeout, stall inside an oversized body until the timeout), plus queued clients that leave silently and connections reset before they were accepted. After every open/end event exactly min(open, limit) connections are served; after every history limit+1 fresh probes: exactly limit answered, the extra one as soon as a slot frees; accept loop alive (a refused connection is a violation).",
+   technique="exhaustive enumeration of connection-lifecycle sequences (13 ending kinds, limits 1..4, length <= limit+2, two ending orders) against the real accept loop/semaphore on loopback TCP with virtual time",
+   text="13 ending kinds (client close, quit, quitq, close mid-request, bad magic, oversized item then close, idle timeout, abortive reset, stall inside a request until the timeout, stall inside an oversized body until the timeout, quit then hang up without reading, quit / quitq with the client keeping its socket open), plus queued clients that leave silently and connections reset before they were accepted. After every open/end event exactly min(open, limit) connections are served; after every history limit+1 fresh probes: exactly limit answered, the extra one as soon as a slot frees; accept loop alive (a refused connection is a violation).",
    note=NET_NOTE),
  "C18": dict(engine="net", cat="fault_enumeration", ref="§4 C18, §2.5",
    technique="exhaustive enumeration of every cut offset of pipelined streams x 7 fault kinds on real loopback TCP with an observer connection, compared with in-process execution of the completed prefix",
@@ -94,21 +94,21 @@ CHECKS.update({
 
 CHECKS.update({
  "C10": dict(engine="grid+net", cat="exploration", ref="§4 C10, §2.4",
-   technique="exhaustive boundary-grid enumeration of header fields x bytes available x store state through the real decode/handle/encode path under catch_unwind (overflow checks on), plus a socket sub-grid with virtual-time silence",
-   text="About 0.5 M distinct headers (opcode 0..255 x key/extras/body lengths around every limit x bytes available x CAS extremes x stored value x incr/decr operand extremes, wrong magic/data type): no panic, the decoder makes progress or waits or fails, a header invalid by the property's list is never executed (no success response, store unchanged), buffer capacity stays below limit+24+4096; 19 k of them replayed over real TCP with 61 s of virtual silence: no task panic, connection closed, server still serving; oversized bodies delivered in three pieces with pipelined followers (no panic in the discard loop); oversized bodies streamed in 512-byte reads (buffered bytes stay below limit+24+4096). Exhaustive over the grid, not over all byte strings (random bytes are sampling and outside this technique).",
+   technique="exhaustive boundary-grid enumeration of header fields x bytes available x store state through the real decode/handle/encode path under catch_unwind (overflow checks on), a socket sub-grid with virtual-time silence, and explicit-state BFS over the command histories of every sequential alphabet (no panic, every command returns)",
+   text="About 0.5 M distinct headers (opcode 0..255 x key/extras/body lengths around every limit x bytes available x CAS extremes x stored value x incr/decr operand extremes, wrong magic/data type): no panic, the decoder makes progress or waits or fails, a header invalid by the property's list is never executed (no success response, store unchanged), buffer capacity stays below limit+24+4096; 19 k of them replayed over real TCP with 61 s of virtual silence: no task panic, connection closed, server still serving; oversized bodies delivered in three pieces with pipelined followers (no panic in the discard loop); oversized bodies streamed in 512-byte reads (buffered bytes stay below limit+24+4096). Second part: every command history of the nine sequential alphabets up to their quick depths (stateful: expired items, CAS, eviction, clock steps) on the real path - no panic, no decode error on a valid request, every command returns (30 s watchdog). Exhaustive over the grid and the histories, not over all byte strings (random bytes are sampling and outside this technique).",
    note="Trusted: the harness profile really has overflow-checks on (profile.dev in mc/Cargo.toml); panic capture via a process-wide hook. " + NET_NOTE),
  "C11": dict(engine="seq", cat="model_checking", ref="§4 C11, §2.3",
    technique="explicit-state BFS over histories of every opcode x every outcome on the real code; every encoded response re-parsed by an independent parser",
    text="Socket part: pipelined getk of 0.07-1 MB items, read only after the server blocked on the full socket: every frame whole and in order. Sequential part: 62-command alphabet (every opcode, loud and quiet, hit/miss/exists/not-found/too-large/non-numeric, 250-byte and binary keys, opaques 0/0xabad1dea/0xffffffff/0x80000001), all histories to the bound: every response frame has magic 0x81, opcode and opaque echoed, data type 0, status in the table, body length = extras+key+value, 4 extras on hits, key only for getk, 8 bytes for counters, text on errors; exactly one frame per loud request. The same rules are applied to every response of the C12 socket runs.",
    note=SEQ_NOTE),
  "C19": dict(engine="seq-pair", cat="model_checking", ref="§4 C19, §2.3",
-   technique="explicit-state BFS over pairs of real systems (loud run, toggled run); the loud/quiet toggle is part of the alphabet so every subset of positions is covered",
-   text="All histories to the bound x every subset of positions switched to quiet: after every command both stores hold identical items (value, flags, expiry) with isomorphic CAS relations; errors identical apart from the opcode, quiet success and quiet get miss silent, quiet hit carries the same payload.",
+   technique="explicit-state BFS over pairs of real systems (loud run, toggled run); the loud/quiet toggle is part of the alphabet so every subset of positions is covered; every toggled history up to depth 2 (thorough 3) is also sent as pipelined writes to a real TCP server and compared with the in-process run",
+   text="All histories to the bound x every subset of positions switched to quiet: after every command both stores hold identical items (value, flags, expiry) with isomorphic CAS relations; errors identical apart from the opcode, quiet success and quiet get miss silent, quiet hit carries the same payload. TCP part: each clock-free segment of a toggled history is one write (its requests are pipelined in the server's read buffer); received bytes and final store must equal the in-process run of the same history.",
    note=SEQ_NOTE),
  "C20": dict(engine="cfg", cat="exploration", ref="§4 C20, §2.6",
-   technique="exhaustive configuration-grid enumeration: one real server process per CLI configuration, identical programs, transcript comparison",
-   text="Grid runtime-type x threads {1,2,8} x eviction x port x max-item-size x connection-limit (quick: covering subset of 8, thorough: all 96): byte-identical transcripts of the C01/C07 spanning-tree programs across configurations and agreement with the in-process run, item-size and connection limits enforced as configured (8 x limit simultaneous connections), one real-time TTL probe per configuration. Second part: in-process differential BFS, eviction policy none vs random with an unreachable limit, every history of the C01 alphabet (incl. rejected CAS stores) to depth 5-6: byte-identical responses and equal stores.",
-   note="Trusted: timing enters only as patience (5 s for positive, 300 ms for negative expectations); servers are started by `mc serve` = cli::parser::parse + runtime_builder::create_memcrs_server + block_on(system_timer.run()), i.e. memcrsd's main() minus logging."),
+   technique="exhaustive configuration-grid enumeration: one real memcrsd process (built from /repo, hooks off) per CLI configuration, identical programs, transcript comparison",
+   text="Grid runtime-type x threads {1,2,8} x eviction x port x max-item-size x connection-limit (quick: covering subset of 8, thorough: all 96): byte-identical transcripts of the C01/C07 spanning-tree programs across configurations and agreement with the in-process run, item-size and connection limits enforced as configured (8 x limit simultaneous connections), a 1500-item population read back and flushed, one real-time TTL probe per configuration (ttl 4: hit at 0 s and 2.3 s, miss at 5.6 s). Second part: in-process differential BFS, eviction policy none vs random with an unreachable limit, every history of the C01 alphabet (incl. rejected CAS stores) to depth 5-6: byte-identical responses and equal stores.",
+   note="Trusted: timing enters only as patience (5 s for positive, 300 ms for negative expectations); ./run builds the real memcrsd binary from /repo's working tree (verification feature off) into /verif/mc/target/memcrsd and every configuration is that binary with its CLI arguments; `mc serve` (the statements of memcrsd's main) is only the fallback when MEMCRSD_BIN is unset, and the evidence records which one ran."),
 })
 
 PENDING = {}
